@@ -26,6 +26,63 @@ Proof.
   rewrite IH. destruct (rt_uri e); [apply set_height_uris|reflexivity].
 Qed.
 
+(* ------------------------------------------------------------------ PrepareProposal *)
+Lemma zsumL_cons x l : zsumL (x :: l) = x + zsumL l.
+Proof. reflexivity. Qed.
+Lemma zsumL_app a b : zsumL (a ++ b) = zsumL a + zsumL b.
+Proof. induction a as [|x a IH]; [reflexivity|]. rewrite <- app_comm_cons, !zsumL_cons, IH. lia. Qed.
+Lemma zsumL_nonneg l : Forall (fun e => 0 <= e) l -> 0 <= zsumL l.
+Proof. induction 1 as [|x l Hx Hl IH]; [cbn; lia|]. rewrite zsumL_cons. lia. Qed.
+
+Lemma take_fitting_nonneg budget : forall entries used, Forall (fun e => 0 <= e) entries ->
+  Forall (fun e => 0 <= e) (take_fitting budget used entries).
+Proof.
+  induction entries as [|e tl IH]; intros used Hn; cbn [take_fitting]; [constructor|].
+  inversion Hn as [|? ? He Ht]; subst. destruct (budget <? used + e); [constructor|].
+  constructor; [exact He|apply IH; exact Ht].
+Qed.
+
+Lemma take_fitting_le budget : forall entries used, Forall (fun e => 0 <= e) entries ->
+  used + zsumL (take_fitting budget used entries) <= Z.max used budget.
+Proof.
+  induction entries as [|e tl IH]; intros used Hn; cbn [take_fitting]; [cbn; lia|].
+  inversion Hn as [|? ? He Ht]; subst.
+  destruct (Z.ltb_spec budget (used + e)); [cbn; lia|].
+  rewrite zsumL_cons. specialize (IH (used + e) Ht). lia.
+Qed.
+
+Lemma metadata_section_le max split entries : 0 <= max -> 0 <= split -> Forall (fun e => 0 <= e) entries ->
+  0 <= zsumL (metadata_section max split entries) <= max.
+Proof.
+  intros Hm Hs Hn. unfold metadata_section.
+  pose proof (take_fitting_le (max / 2) entries split Hn) as Hle.
+  pose proof (zsumL_nonneg _ (take_fitting_nonneg (max / 2) entries split Hn)) as Hnn.
+  destruct (take_fitting (max / 2) split entries) as [|x l] eqn:E; [cbn; lia|].
+  rewrite zsumL_cons.
+  (* the section is not empty: its first entry e was admitted, so split + e <= max / 2 *)
+  destruct entries as [|e tl]; [discriminate|]. cbn [take_fitting] in E.
+  destruct (Z.ltb_spec (max / 2) (split + e)); [discriminate|].
+  inversion Hn as [|? ? He Ht]; subst.
+  assert (Z.max split (max / 2) = max / 2) by lia. lia.
+Qed.
+
+(* with the repair the proposal never exceeds MaxTxBytes, whatever the verified items and
+   whatever the default handler selects within its contract *)
+Theorem prepare_proposal_fits sel max split entries :
+  (forall m, 0 <= m -> zsumL (sel m) <= m) -> 0 <= max -> 0 <= split -> Forall (fun e => 0 <= e) entries ->
+  zsumL (prepare_proposal true sel max split entries) <= max.
+Proof.
+  intros Hsel Hm Hs Hn. unfold prepare_proposal. rewrite zsumL_app.
+  pose proof (metadata_section_le max split entries Hm Hs Hn) as Hle.
+  specialize (Hsel (max - zsumL (metadata_section max split entries)) ltac:(lia)). lia.
+Qed.
+(* as found: a full mempool (the default handler fills its budget) and one verified item *)
+Theorem prepare_proposal_as_found_exceeds :
+  let sel := fun m : Z => [m] in
+  (forall m, 0 <= m -> zsumL (sel m) <= m) /\ zsumL (prepare_proposal false sel 13558 10 [27]) = 13595 /\
+  zsumL (prepare_proposal true sel 13558 10 [27]) = 13558.
+Proof. cbn. repeat split; try reflexivity. intros m _. lia. Qed.
+
 (* ------------------------------------------------------------------ liquidityincentive BeginBlocker *)
 Definition BAL_MAX : Z := 2 ^ 128.
 Definition CNT_MAX : Z := 2 ^ 128.
